@@ -217,6 +217,10 @@ class SimProcess:
                 w.now = min(self.exit_time, w.now + t) if w.now < self.exit_time else w.now
                 w.progress()
 
+    def __getattr__(self, name):
+        # anything of the Process API that the fakes do not model is a harness limitation, never a verdict
+        raise HarnessUnsupported(f"Process.{name} is not modelled by SimProcess")
+
     def terminate(self):
         self.world.tick()
         if self.exit_time is None or self.world.now < self.exit_time:
@@ -384,6 +388,9 @@ class SimQueue:
 
     def undelivered(self):
         return [m for q in self.pending.values() for m in q]
+
+    def __getattr__(self, name):
+        raise HarnessUnsupported(f"Queue.{name} is not modelled by SimQueue")
 
     def buffered_in_producer(self, widx: int) -> bool:
         """True iff some message already put by worker widx has not entered the pipe yet: messages enter the pipe
